@@ -18,6 +18,11 @@ func VsymC08OCI() {
 	S := vr.Choice("statements", vr.Param("S", 2)) + 1
 	capacity := vr.Param("cap", 5)
 	wild := vr.Choice("wildcardStatement", S+1) - 1 // -1: none
+	// a second wildcard statement: such a document must not validate (then the choice would depend on order)
+	wild2 := -1
+	if wild >= 0 && S >= 2 && vr.Choice("secondWildcard", 2) == 1 {
+		wild2 = (wild + 1) % S
+	}
 	withOverride := vr.Choice("override", 2) == 1
 	doc := &OCIDocument{Version: "1.0"}
 	names := []string{"s0", "s1", "s2", "s3"}
@@ -32,7 +37,7 @@ func VsymC08OCI() {
 		if withOverride {
 			st.SignatureVerification.Override = map[ValidationType]ValidationAction{TypeExpiry: ActionLog}
 		}
-		if i == wild {
+		if i == wild || i == wild2 {
 			scopes[i] = []string{"*"}
 		} else {
 			n := vr.Choice("nscopes", vr.Param("scopesPer", 1)) + 1
@@ -47,6 +52,7 @@ func VsymC08OCI() {
 	}
 	// the real validator is the validity predicate of documents
 	vr.Assume(doc.Validate() == nil)
+	vr.Assert(wild2 < 0, "a validated document has at most one wildcard statement (otherwise the statement applied depends on the order)")
 	vr.Reach("valid document")
 
 	repo := c08Scope("repo", capacity)
